@@ -5,6 +5,7 @@
 -/
 import Mfi.Model.Integr
 import Mfi.Lemmas.FxL
+import Mfi.Gen.Oracles
 
 namespace Mfi.Props.C20
 open Mfi Mfi.Fx Mfi.Integr
@@ -300,6 +301,23 @@ theorem drift_adjust_i64_fail_closed {cum p : Int} (hp : p < 0) : driftAdjustI64
 theorem kamino_stale_iff (s c : Int) : kaminoStale s c = true ↔ s < c := by simp [kaminoStale]
 theorem solend_stale_iff (s c : Int) : solendStale s c = true ↔ s < c := by simp [solendStale]
 theorem drift_stale_iff (s c : Int) : driftStale s c = true ↔ s < c := by simp [driftStale]
+
+section arms
+open Mfi.Gen.Ora
+
+/-- **stale_wired**: where prices are made (the adapter arms of state/price.rs, regenerated on every run) each of the
+    six venue-backed arms applies the staleness test, to the venue account it has just key- and owner-checked, BEFORE
+    loading a price, and against the right clock — Kamino: the slot, Drift: the unix time, Solend: the Clock sysvar -/
+theorem stale_wired :
+    (arms.filterMap fun a =>
+        match a.2.findIdx? (fun | .venueStaleCheck _ => true | _ => false), a.2.findIdx? (fun | .loadPyth _ | .loadSwb _ => true | _ => false),
+              a.2.findIdx? (· == .venueLoader 1), a.2.findSome? (fun | .venueStaleCheck c => some c | _ => none) with
+        | some s, some l, some v, some c => if v < s ∧ s < l then some (a.1, c) else none
+        | _, _, _, _ => none) =
+      [(.sDriftPythPull, .unixTs), (.sDriftSwitchboardPull, .unixTs), (.sKaminoPythPush, .slot), (.sKaminoSwitchboardPull, .slot),
+       (.sSolendPythPull, .sysvar), (.sSolendSwitchboardPull, .sysvar)] := by decide
+
+end arms
 
 /-! ### exchange-rate-adjusted oracle price (Kamino / Solend) -/
 
